@@ -1,7 +1,7 @@
 (* C03 -- the metadynamics object resumes like the run that wrote its state and went on (over the reals:
    projecting an empty batch of hills adds 0 to every bin).  Grids are compared bin by bin. *)
 From Coq Require Import ZArith List Bool Lia Reals Lra.
-From CV Require Import Base.Num Base.RNum C15.GridModel C03.ResumeModel C03.ResumeProofs C05.MetaModel C03.MetaObject.
+From CV Require Import Base.Num Base.RNum C15.GridModel C03.ResumeModel C03.ResumeProofs C05.MetaModel C03.UsesC05.
 Import ListNotations.
 Local Open Scope Z_scope.
 
